@@ -173,14 +173,14 @@ def parts(ctx):
            profile=lambda e: P.lia_profile(e, consts=(-1, -2, 3), big=False, div=False, pow_=False, consts_first=True),
            mid_ops=_names(*_AR), top_ops=_names("plus", "minus", "times", "le", "eq")))
     if not q:
-        # depth 3 over two symbols and two constants; three-value pools keep the product of interpretations small
+        # depth 3 over two symbols and two constants; four-value pools keep the product of interpretations small
         A(dict(name="lia-d3", profile=lambda e: P.lia_profile(e, consts=(0, 2), big=False, nsyms=2, pow_=False),
                depth=3, shards=256, mid_ops=_names("plus", "minus", "times"),
-               top_ops=_names("plus", "minus", "times", "le", "eq", "div"), max_new=1, dom={INT: (-2, 0, 3)}))
+               top_ops=_names("plus", "minus", "times", "le", "eq", "div"), max_new=1, dom={INT: (-2, 0, 1, 3)}))
         A(dict(name="lra-d3", profile=lambda e: P.lra_profile(e, consts=(Fraction(0), Fraction(1, 2)), pow_=False),
                depth=3, shards=256, mid_ops=_names("plus", "minus", "times"),
                top_ops=_names("plus", "minus", "le", "eq", "div"), max_new=1,
-               dom={REAL: (Fraction(-2), Fraction(1, 3), Fraction(2))}))
+               dom={REAL: (Fraction(-2), Fraction(0), Fraction(1, 3), Fraction(2))}))
     # ---- bit-vectors: all constants of the width, all operators
     A(dict(name="bv1-d2", profile=lambda e: P.bv_profile(e, (1,)), depth=2, shards=16,
            mid_ops=_binary_or_less, top_ops=_binary_or_less, max_new=1 if q else None))
